@@ -7,7 +7,7 @@ import copy
 from dali.exceptions import ProgramShortAddressFailure
 from dali.sequences import Commissioning
 
-from sim import busim, plans
+from sim import busim, drvsim, plans
 from sim.core import EventLog, Violation
 from sim.runner import add_violation, new_result
 
@@ -31,7 +31,7 @@ ASSUMPTIONS = [
 ]
 COMPONENTS = {"real": ["dali.sequences.Commissioning / _find_next", "dali.gear.general initialisation commands and responses"],
               "stub": ["bus and control gear incl. the random-address generator (sim/busim.py)", "driver"]}
-PROBES = ["clash-restart", "two-clash-rounds", "redraw-equals-withdrawn-unit", "addresses-exhausted", "address-0xffffff",
+PROBES = ["stacked-tridonic", "stacked-hasseb", "clash-restart", "two-clash-rounds", "redraw-equals-withdrawn-unit", "addresses-exhausted", "address-0xffffff",
           "address-0", "preexisting-duplicates", "unit-does-not-store", "unit-does-not-verify", "dry-run", "readdress",
           "more-than-64-units", "empty-bus", "in-use-address-in-permitted-set"]
 
@@ -101,8 +101,13 @@ def gen_plan(seed, tier="quick"):
         avail = sorted(set(r.sample(range(64), r.randrange(2, 10)) + used[:3]))
     if avail is not None and r.random() < 0.3:
         r.shuffle(avail)
-    return {"engine": "busim", "property": PROP, "seed": seed, "units": units, "available": avail,
+    plan = {"engine": "busim", "property": PROP, "seed": seed, "units": units, "available": avail,
             "readdress": r.random() < 0.4, "dry_run": r.random() < 0.15}
+    if seed % 60 == 11 and n <= 6:
+        # 'stacked' transport through the real hid drivers (they report collisions
+        # as framing errors, which commissioning needs; the serial gateways do not)
+        plan["transport"] = ("tridonic", "hasseb")[(seed // 60) % 2]
+    return plan
 
 
 def run_plan(plan):
@@ -125,7 +130,15 @@ def run_plan(plan):
     readdress, dry = plan["readdress"], plan["dry_run"]
     avail = plan["available"]
     gen = Commissioning(available_addresses=None if avail is None else list(avail), readdress=readdress, dry_run=dry)
-    sr = busim.run_sequence(gen, bus, cap=cap, log=log)
+    transport = plan.get("transport")
+    if transport:
+        sr, rr_ = drvsim.run_stacked(transport, plan["seed"], units, lambda: gen)
+        log = rr_.world.log
+        bus.t_us = int(rr_.vtime * 1e6)
+        frames = [v_ for b_, v_ in sr.frames]
+    else:
+        sr = busim.run_sequence(gen, bus, cap=cap, log=log)
+        frames = [c[1].frame.as_integer for c in sr.commands]
     vs = []
     probes = {}
 
@@ -139,7 +152,7 @@ def run_plan(plan):
     in_use = {before[i] for i in nonpart if before[i] is not None} if not readdress else set()
     free = [a for a in permitted if a not in in_use]
     mode = ("readdress" if readdress else "new-only") + ("/dry-run" if dry else "")
-    nclash = sum(1 for c in sr.commands if (c[1].frame.as_integer >> 8) == 0xA7) - 1
+    nclash = sum(1 for f_ in frames if (f_ >> 8) == 0xA7) // (2 if transport == "hasseb" else 1) - 1
     if sr.status == "cap":
         V("does-not-terminate", "still running after %d commands (%d units, %d stream rounds)" % (cap, n, rounds), site=mode)
     elif sr.status == "raise":
@@ -150,8 +163,8 @@ def run_plan(plan):
                 getattr(sr.exc, "address", None)), site=mode)
     else:
         after = [g.short for g in units]
-        if sr.commands and (sr.commands[-1][1].frame.as_integer >> 8) != 0xA1:
-            V("no-final-terminate", "last command is %s" % sr.commands[-1][1], site=mode)
+        if frames and (frames[-1] >> 8) != 0xA1:
+            V("no-final-terminate", "last command is %#06x" % frames[-1], site=mode)
         stuck = [g.name for g in units if g.init != busim.DISABLED]
         if stuck:
             V("units-left-in-initialisation", "%s still %s" % (stuck[:4], units[int(stuck[0][1:])].init), site=mode)
@@ -190,6 +203,8 @@ def run_plan(plan):
                     V("wrong-number-of-units-addressed", "%d participants, %d free permitted addresses: %d units "
                       "addressed, expected %d (after %s)" % (len(participants), len(free), len(got), want,
                                                              [after[i] for i in participants][:12]), site=mode)
+    if transport:
+        probes["stacked-" + transport] = 1
     if nclash >= 1:
         probes["clash-restart"] = 1
     if nclash >= 2:
@@ -218,7 +233,7 @@ def run_plan(plan):
     for x in vs:
         add_violation(res, x)
     res["digest"] = log.digest()
-    res["shape"] = log.digest()[:16]
+    res["shape"] = log.shape() if transport else log.digest()[:16]
     res["events"] = len(log)
     res["vtime_s"] = bus.t_us * 1e-6
     res["nontrivial"] = len(participants) >= 2 and (nclash >= 1 or len(participants) > len(free) or bool(faulty)
@@ -229,7 +244,7 @@ def run_plan(plan):
         res["faults"]["random-address-clash"] = nclash
     if res["violations"]:
         res["plan"] = plan
-    res["sample"] = {"seed": plan["seed"], "units": [(u["short"], [hex(x) for x in u["stream"]], u["fault"]) for u in plan["units"][:8]],
+    res["sample"] = {"seed": plan["seed"], "transport": transport or "direct", "units": [(u["short"], [hex(x) for x in u["stream"]], u["fault"]) for u in plan["units"][:8]],
                      "n_units": n, "available": avail, "readdress": readdress, "dry_run": dry, "status": sr.status,
                      "commands": sr.steps, "clash_restarts": max(nclash, 0),
                      "after": [g.short for g in units][:12]}
@@ -254,6 +269,10 @@ def run_seed(seed, tier):
 
 
 def shrink(plan):
+    if plan.get("transport"):
+        p = copy.deepcopy(plan)
+        del p["transport"]
+        yield p
     n = len(plan["units"])
     if n > 6:
         for lo, hi in ((0, n // 2), (n // 2, n)):
